@@ -2,7 +2,8 @@
 (***************************************************************************)
 (* Bounded instance of AbsObject.tla (mode M): the PRODUCT of two abstract *)
 (* object lists "A", "B" with one concrete memory each.  TLC explores all  *)
-(* histories up to Depth operations over                                   *)
+(* histories up to Depth operations (from the empty lists, or from every   *)
+(* preset, see MCInit) over                                                *)
 (*   NObj object identifiers x offsets 0..OffHi x cell sizes Sizes x       *)
 (*   NVals absolute values (+ one pointer value, + Top)                    *)
 (* and checks in every reachable state                                     *)
@@ -28,8 +29,11 @@
 EXTENDS AbsObject, TLC
 CONSTANTS NObj, OffHi, Sizes, NVals, Depth, PtrVal, TopVal, Variants, TwoLists, Presets
 
-VARIABLE ok           \* the reference result of the last step satisfied the step relation
-mvars == <<lists, conc, ok>>
+VARIABLES ok,         \* the reference result of the last step satisfied the step relation
+          n           \* length of the history (a variable, not TLCGet("level"): with several workers TLC's
+                      \* level of a state depends on the discovery order and the bounded graph would differ
+                      \* from run to run)
+mvars == <<lists, conc, ok, n>>
 
 Ids == 1..NObj
 Off == 0..OffHi
@@ -51,9 +55,11 @@ TSpecs(id) ==
   \cup {Tgt(id, "iv", 0, 1, 1), Tgt(id, "top", 0, 0, 0)}
   \cup (IF OffHi >= 2 THEN {Tgt(id, "iv", 0, 2, 2)} ELSE {})
 TS2(id) == {Tgt(id, "iv", 0, 0, 0), Tgt(id, "iv", 1, 1, 0), Tgt(id, "iv", 0, 1, 1), Tgt(id, "top", 0, 0, 0)}
+\* single-target pointers plain and with the top flag; the absolute part (same effect on a write as the top
+\* flag) only on the exact target 0; two-target pointers
 Ptrs ==
-  {Ptr(<<t>>, e[1], e[2]) : t \in UNION {TSpecs(id) : id \in Ids},
-                            e \in {<<FALSE, FALSE>>, <<TRUE, FALSE>>, <<FALSE, TRUE>>}}
+  {Ptr(<<t>>, FALSE, tp) : t \in UNION {TSpecs(id) : id \in Ids}, tp \in BOOLEAN}
+  \cup {Ptr(<<Tgt(id, "iv", 0, 0, 0)>>, TRUE, FALSE) : id \in Ids}
   \cup (IF NObj >= 2 THEN {Ptr(<<t1, t2>>, FALSE, FALSE) : t1 \in TS2(1), t2 \in TS2(2)} ELSE {})
 ReadPtrs == Ptrs \cup {Ptr(<<>>, TRUE, FALSE), Ptr(<<>>, FALSE, TRUE)}
 
@@ -108,7 +114,7 @@ PresetConc(k) == CASE k = 1 -> <<MR!EmptyRegion>>
                    [] k = 3 -> <<MR!EmptyRegion, MR!EmptyRegion>>
                    [] k = 4 -> <<CCell0, CCell0>>
 MCInit ==
-  /\ ok = TRUE
+  /\ ok = TRUE /\ n = 0
   /\ IF ~Presets THEN lists = [x \in Lists |-> <<>>] /\ conc = [x \in Lists |-> <<>>]
      ELSE \E f \in [Ids -> 0..4] :
             LET present == {id \in Ids : f[id] # 0}
@@ -118,7 +124,7 @@ MCInit ==
             /\ conc = [x \in Lists |-> IF x \in UsedLists THEN C ELSE <<>>]
 \* the presets are what inserts produce (checked in the initial states)
 InitReachable ==
-  TLCGet("level") > 1 \/ ~Presets \/
+  n > 0 \/ ~Presets \/
   \A id \in DOMAIN lists["A"] :
     LET ob == lists["A"][id]
         one == Obj(TRUE, {}, ob.mem) IN
@@ -172,7 +178,7 @@ DoCopy ==
 \* histories of at most Depth operations (a guard, not a CONSTRAINT: TLC evaluates the invariants on
 \* every GENERATED state that violates a constraint, without deduplication)
 MCNext ==
-  /\ TLCGet("level") <= Depth
+  /\ n < Depth /\ n' = n + 1
   /\ (DoInsert \/ DoStrongWrite \/ DoWeakWrite \/ DoMergeValue \/ DoArbitrary \/ DoNonUnique \/ DoMerge \/ DoCopy)
 
 \* ---------------------------------------------------------------- invariants
@@ -184,7 +190,7 @@ ReadSound ==
         ms  == ConcReads(conc[x], q, s, W) IN
     /\ GetOK(lists[x], q, s, res)
     /\ \A m \in ms : InG(m, res)
-    /\ (Variants /\ ~q.abs /\ TLCGet("level") <= Depth) => \A r2 \in ResVals(s) : GetOK(lists[x], q, s, r2) => \A m \in ms : InG(m, r2)
+    /\ (Variants /\ ~q.abs /\ n < Depth) => \A r2 \in ResVals(s) : GetOK(lists[x], q, s, r2) => \A m \in ms : InG(m, r2)
 
 (* Non-vacuity witnesses (counted with TLCSet/TLCGet; read by lib/checks/x05.py):       *)
 (* 1 a unique object holds an unflagged cell; 2 a NON-unique object holds an unflagged  *)
